@@ -19,7 +19,15 @@ fn mk(name: &str, seeds: Vec<(String, Sim)>, menu: Menu) -> StakingScenario {
     StakingScenario { name: name.to_string(), props: vec![], seeds, menu, probe: None, goal: None, extra_step: None, dev_cost: std_dev, panics_are: None }
 }
 
-fn trim(mut s: Sim, keep: u128) -> Sim {
+fn trim(f: impl FnOnce() -> Sim, keep: u128) -> Option<Sim> {
+    try_seed(f).map(|s| trim_of(s, keep))
+}
+
+fn avail(v: Vec<(String, Option<Sim>)>) -> Vec<(String, Sim)> {
+    v.into_iter().filter_map(|(n, s)| s.map(|s| (n, s))).collect()
+}
+
+fn trim_of(mut s: Sim, keep: u128) -> Sim {
     let sdn = sd();
     for i in 1..=3u8 {
         let a = u(i);
@@ -39,7 +47,7 @@ fn upd(native: Option<staking::types::UnsafeNativeChainConfig>, proto: Option<st
 // ------------------------------------------------------------------------------------------ C08
 fn auth_plan(thorough: bool) -> Plan {
     let k = K::k4();
-    let fees_tre = {
+    let fees_tre = || {
         let sc = Script::resumed(&k).run(stake(&u(1), 100)).with(|s| rewards(s, 50)).with(|s| rewards(s, 50));
         sc.run(exec(
             &adm(),
@@ -54,20 +62,20 @@ fn auth_plan(thorough: bool) -> Plan {
         ))
         .done()
     };
-    let refundable = {
+    let refundable = || {
         let mut s = seed_two_stakes(&k);
         let ap = s.apply(&hold(stake(&u(1), 20)));
         let seq = ap.out.new_packets[0];
         s.apply(&Act::Outcome { seq, kind: 1 });
         s
     };
-    let seeds: Vec<(String, Sim)> = vec![
-        ("K4/fresh".into(), trim(seed_fresh(&k), 100)),
+    let seeds: Vec<(String, Sim)> = avail(vec![
+        ("K4/fresh".into(), trim(|| seed_fresh(&k), 100)),
         ("K4/fees_treasury".into(), trim(fees_tre, 100)),
         ("K4/refundable".into(), trim(refundable, 100)),
-        ("K4/submitted".into(), trim(seed_submitted(&k), 100)),
-        ("K4/received".into(), trim(seed_received(&k), 100)),
-    ];
+        ("K4/submitted".into(), trim(|| seed_submitted(&k), 100)),
+        ("K4/received".into(), trim(|| seed_received(&k), 100)),
+    ]);
     let kk = k.clone();
     let menu: Menu = Box::new(move |s| {
         let mut a = Vec::new();
@@ -162,14 +170,14 @@ fn breaker_plans(thorough: bool) -> Vec<Plan> {
         if k.name == "K1" && !thorough {
             continue;
         }
-        let seeds: Vec<(String, Sim)> = vec![
-            (format!("{}/fresh", k.name), trim(seed_fresh(&k), 150)),
-            (format!("{}/two_stakes", k.name), trim(seed_two_stakes(&k), 150)),
-            (format!("{}/rate_up", k.name), trim(seed_rate_up(&k), 150)),
-            (format!("{}/queued", k.name), trim(seed_queued(&k), 150)),
-            (format!("{}/submitted", k.name), trim(seed_submitted(&k), 150)),
-            (format!("{}/received", k.name), trim(seed_received(&k), 150)),
-        ];
+        let seeds: Vec<(String, Sim)> = avail(vec![
+            (format!("{}/fresh", k.name), trim(|| seed_fresh(&k), 150)),
+            (format!("{}/two_stakes", k.name), trim(|| seed_two_stakes(&k), 150)),
+            (format!("{}/rate_up", k.name), trim(|| seed_rate_up(&k), 150)),
+            (format!("{}/queued", k.name), trim(|| seed_queued(&k), 150)),
+            (format!("{}/submitted", k.name), trim(|| seed_submitted(&k), 150)),
+            (format!("{}/received", k.name), trim(|| seed_received(&k), 150)),
+        ]);
         let mut o = MenuOpt::base();
         o.halt_resume = true;
         o.stake_native = true;
@@ -239,7 +247,7 @@ fn fresh_instances(r: &mut Runner) {
 fn hostile_plans(thorough: bool) -> Vec<Plan> {
     let mut out = vec![];
     for k in [K::k0(), K::k1(), K::k2(), K::k3(150_000)] {
-        let refundable = {
+        let refundable = || {
             let mut s = seed_two_stakes(&k);
             for kind in [1u8, 2] {
                 let ap = s.apply(&hold(stake(&u(1), 20)));
@@ -252,17 +260,17 @@ fn hostile_plans(thorough: bool) -> Vec<Plan> {
             }
             s
         };
-        let mut seeds: Vec<(String, Sim)> = vec![
-            (format!("{}/fresh", k.name), trim(seed_fresh(&k), 120)),
-            (format!("{}/two_stakes", k.name), trim(seed_two_stakes(&k), 120)),
+        let mut seeds: Vec<(String, Option<Sim>)> = vec![
+            (format!("{}/fresh", k.name), trim(|| seed_fresh(&k), 120)),
+            (format!("{}/two_stakes", k.name), trim(|| seed_two_stakes(&k), 120)),
             (format!("{}/refundable", k.name), trim(refundable, 120)),
         ];
         if k.fee <= 100_000 {
             // (a fee rate above 100 % refuses every reward, so the reward-based seeds do not exist there)
-            seeds.push((format!("{}/rate_up", k.name), trim(seed_rate_up(&k), 120)));
-            seeds.push((format!("{}/received", k.name), trim(seed_received(&k), 120)));
-            seeds.push((format!("{}/rate_down", k.name), trim(seed_rate_down(&k), 120)));
-            seeds.push((format!("{}/sweep", k.name), trim(seed_sweep(&k), 120)));
+            seeds.push((format!("{}/rate_up", k.name), trim(|| seed_rate_up(&k), 120)));
+            seeds.push((format!("{}/received", k.name), trim(|| seed_received(&k), 120)));
+            seeds.push((format!("{}/rate_down", k.name), trim(|| seed_rate_down(&k), 120)));
+            seeds.push((format!("{}/sweep", k.name), trim(|| seed_sweep(&k), 120)));
         }
         let mut o = MenuOpt::base();
         o.halt_resume = true;
@@ -283,7 +291,7 @@ fn hostile_plans(thorough: bool) -> Vec<Plan> {
             }
             a
         });
-        let mut sc = mk(&format!("hostile-{}", k.name), seeds, menu);
+        let mut sc = mk(&format!("hostile-{}", k.name), avail(seeds), menu);
         sc.panics_are = Some("C16");
         sc.probe = Some(Box::new(move |s| hostile_probe(s, full)));
         out.push(Plan { sc, depth: if thorough { 4 } else { 2 }, required: vec!["LiquidStake:ok", "ReplyFault(1):ok"] });
